@@ -383,11 +383,17 @@ def gen_random(rng, mode):
                 labels[a][0] = labels[b][0]
                 if rng.random() < 0.5:
                     labels[a][1] = labels[b][1]
+    if mode != "dense" and rng.random() < 0.25:
+        # data positions on both sides of zero, or all negative
+        off = rng.choice([-span / 2.0, -span - 10, -1000])
+        labels = [[a + off, w] for a, w in labels]
     opts = {"nodeSpacing": rng.choice([0, 0, 0.5, 1, 3, 3, 5]),
             "algorithm": rng.choice(["overlap", "overlap", "simple", "none"]),
             "density": rng.choice([0.5, 0.75, 0.85, 1]),
             "stubWidth": rng.choice([0, 1, 1, 2.5])}
     mn = rng.choice([0, 0, None, -10.5, 30])
+    if labels and min(a for a, _ in labels) < 0 and mn is not None and rng.random() < 0.7:
+        mn = min(a for a, _ in labels) - rng.choice([0, 5.5, 40])         # a lower bound below the negative data
     opts["minPos"] = mn
     if rng.random() < 0.6:
         base = mn if mn is not None else 0
